@@ -1,0 +1,57 @@
+package cmd
+
+import (
+	"os"
+	"path/filepath"
+)
+
+// replaceFileAtomic replaces the contents of an existing file without ever
+// leaving it truncated or half-written: the new contents go to a temporary
+// file in the same directory, which is then renamed over the target. If
+// anything fails before the rename, the original file is untouched.
+//
+// The target's permission bits are kept (fallbackPerm is used only when the
+// target cannot be stat'ed), and a symbolic link is followed so that the link
+// itself stays in place.
+func replaceFileAtomic(path string, data []byte, fallbackPerm os.FileMode) error {
+	target := path
+	if resolved, err := filepath.EvalSymlinks(path); err == nil {
+		target = resolved
+	}
+	perm := fallbackPerm
+	if info, err := os.Stat(target); err == nil {
+		perm = info.Mode().Perm()
+	}
+
+	tmp, err := os.CreateTemp(filepath.Dir(target), "."+filepath.Base(target)+".tmp-*")
+	if err != nil {
+		return err
+	}
+	tmpName := tmp.Name()
+	cleanup := func() { _ = os.Remove(tmpName) }
+
+	if _, err := tmp.Write(data); err != nil {
+		_ = tmp.Close()
+		cleanup()
+		return err
+	}
+	if err := tmp.Chmod(perm); err != nil {
+		_ = tmp.Close()
+		cleanup()
+		return err
+	}
+	if err := tmp.Sync(); err != nil {
+		_ = tmp.Close()
+		cleanup()
+		return err
+	}
+	if err := tmp.Close(); err != nil {
+		cleanup()
+		return err
+	}
+	if err := os.Rename(tmpName, target); err != nil {
+		cleanup()
+		return err
+	}
+	return nil
+}
